@@ -21,7 +21,7 @@ from skeletons import docs as DOCS
 MODULE = "checks.c03"
 
 _PROTECT = re.compile(r"\{%.*?%\}|\{#.*?#\}|\{\{.*?\}\}|<!--.*?-->|<[^>]*>")
-_PLAIN_WORD = re.compile(r"^(?:q[a-z]{2}[.,']?s?'?d?|\[q.*|`q.*|\*+q.*|~~q.*|http.*|!\[.*|\"?q[a-z]{2}.*)$")
+_PLAIN_WORD = re.compile(r"^(?:q[a-z]{2}[.,']?s?'?d?|2019\.|\||3\)|\[q.*|`q.*|\*+q.*|~~q.*|http.*|!\[.*|\"?q[a-z]{2}.*)$")
 
 
 def relayout(case: dict[str, Any], rnd: random.Random) -> list[str] | None:
@@ -68,6 +68,23 @@ def cases(tier: str) -> list[dict[str, Any]]:
                     continue
                 d = dict(c)
                 d.update(kind="relayout", sem=sem, plines2=pl, key=f"relayout/{c['key']}/{'sem' if sem else 'fill'}/r{r}")
+                cs.append(d)
+    # systematic: for typography paragraphs, one relayout per gap with a newline exactly there, and one with a newline at every gap
+    for c in DOCS.typo(tier):
+        if c["ctx"] not in ("top", "bullet"):
+            continue
+        ws = c["words"]
+        def taggy(w: str) -> bool:
+            return any(t in w for t in ("{%", "{#", "{{", "<!--", "%}", "#}", "}}", "-->"))
+
+        ks = [k for k in range(1, len(ws)) if not taggy(ws[k - 1]) and not taggy(ws[k])]   # never next to a tag/comment
+        layouts = [[" ".join(ws[:k]), " ".join(ws[k:])] for k in ks]
+        if len(ks) == len(ws) - 1:
+            layouts.append(list(ws))
+        for r, pl in enumerate(layouts):
+            for sem in (False, True):
+                d = dict(c)
+                d.update(kind="relayout", sem=sem, plines2=pl, key=f"relayout/{c['key']}/{'sem' if sem else 'fill'}/nl{r}")
                 cs.append(d)
     # whitespace-only relayouts of block skeletons: blank lines around the document, extra blank lines between
     # blocks, doubled spaces between words (never inside code, never at a line start)
